@@ -201,7 +201,7 @@ def main(argv=None):
         else:
             undecided.append("%s: %s %s" % (name, r["status"], r.get("detail", "")))
 
-    # bounded stand-ins (thorough tier only; never counted as proved)
+    # bounded stand-ins (both tiers; never counted as proved)
     standin_reports = list(bounded_reports)
     if _standin_future is not None:
         ran = []
